@@ -2,7 +2,7 @@
    This file contains nothing else, so the statement cannot be weakened quietly. *)
 From Coq Require Import List ZArith Bool Arith Lia Reals Lra.
 From Flocq Require Import Core.Raux Core.Generic_fmt.
-From Inferno Require Import Base.Num Base.NumR Gen.Infra Gen.Interpolation C01.Ring C01.RingProofs C04.Synapse C04.HistProofs C04.ClosedForms C04.SelectProofs C04.SynapseProofs.
+From Inferno Require Import Base.Num Base.NumR Gen.Infra Gen.Interpolation C01.Ring C01.RingProofs C04.Synapse C04.HistProofs C04.SelectProofs.
 Import ListNotations.
 Open Scope R_scope.
 Theorem param_at_delayed_D : forall (n : nat) (sh : list nat) (peekv : list R) (selv : nat -> R -> R) 
